@@ -18,7 +18,7 @@
      bounds <wal_offset> <wal_size> <data_end> <file_len> <off> <len> → ok
      timeline <n_frames> <limit|-> <ids,…|-> → ok <ids>
      planner <pending>                      → ok replay | ok noreplay
-     blob <start> <len> <target>            → ok <pos> -/
+     blob <file_len> <start> <len> <target> <checksum ok 0/1> → ok <pos> -/
 import MvModel.Decoders
 import MvModel.Blake3
 import MvModel.DrvUtil
@@ -136,9 +136,9 @@ def step (_ : Unit) (ws : List String) : Unit × String :=
   | ["planner", p] => match p.toNat? with
     | some p => ((), showOut (plannerCompute p) fun b => if b then "replay" else "noreplay")
     | none => bad
-  | ["blob", s, l, t] => match s.toNat?, l.toNat?, t.toNat? with
-    | some s, some l, some t => ((), showOut (blobSeek s l t) toString)
-    | _, _, _ => bad
+  | ["blob", fl, s, l, t, ck] => match fl.toNat?, s.toNat?, l.toNat?, t.toNat? with
+    | some fl, some s, some l, some t => ((), showOut (blobOpenSeek fl s l t (ck == "1")) toString)
+    | _, _, _, _ => bad
   | _ => bad
 
 def main : IO Unit := runDriver () step
